@@ -199,6 +199,17 @@ func runScenarioWith(sc scn, seed int64, f *fault, readTimeout time.Duration, ba
 			time.Sleep(3 * time.Millisecond)
 			w := sim.Conn.WrittenBytes()
 			sim.Conn.Locked(func() { sim.Conn.WriteFailAfter = w + f.K })
+		case "exception+cancel":
+			// the server's exception is consumed first, then the caller's own context ends before Do
+			// has returned (a client deadline equal to the server's max_execution_time)
+			sim.Conn.Locked(func() { sim.Srv.Aborted = true })
+			sim.Conn.DropQueuedAfterCurrent()
+			sim.Conn.Push(simnet.Item{Data: simnet.PacketException(exc)})
+			for i := 0; i < 200 && sim.Conn.QueueLen() > 0; i++ {
+				time.Sleep(time.Millisecond)
+			}
+			time.Sleep(3 * time.Millisecond)
+			cancel()
 		case "unknown-packet":
 			sim.Conn.PushFront(simnet.Item{Data: []byte{byte(40 + f.K%80), 0, 1, 2}})
 		case "unexpected-packet":
